@@ -29,16 +29,16 @@ type VerifVertex struct {
 }
 
 type VerifDumpT struct {
-	Len            int
-	DataBytes      uint64
-	BytesSize      uint64
-	EntrypointNil  bool
-	Entrypoint     uuid.UUID
-	EntrypointDel  bool
-	EntrypointLive bool // the entry point object is the one stored under its id
+	Len             int
+	DataBytes       uint64
+	BytesSize       uint64
+	EntrypointNil   bool
+	Entrypoint      uuid.UUID
+	EntrypointDel   bool
+	EntrypointLive  bool          // the entry point object is the one stored under its id
 	EntrypointEdges [][]VerifEdge // edges of the entry point object when it is not a stored vertex
 	EntrypointLevel int
-	Vertices       []VerifVertex
+	Vertices        []VerifVertex
 }
 
 func (this *Hnsw) VerifDump() VerifDumpT {
